@@ -173,7 +173,11 @@ def run(prop, tier, seed, replay=None):
 
     def side(r, which, label):
         """model / spec answers that build `label` is compared with"""
-        return r.get(which + "-" + label, r[which])
+        vals = r.get(which + "-" + label, r[which])
+        if which == "spec":
+            # "MERGED ..." answers are compared by the property's observe() hook, not literally
+            return ["N/A" if v.startswith("MERGED") else v for v in vals]
+        return vals
 
     def impl_fails_spec(lines):
         r = three_sides(lines)
